@@ -219,4 +219,12 @@ def selftest():
         V("unavailable-is-available", HDS, "    @property\n    def available(cls):\n        return False", "    @property\n    def available(cls):\n        return True", rule="CMP.available"),
         V("twin-chained", TH, "        return start <= x < end", "        return start <= x and x < end", kind="twin"),
         V("twin-wrap-mirror", TH, "        return start <= x or x < end", "        return x >= start or not (x >= end)", kind="twin"),
-    ]
+    ] + _auto()
+
+
+def _auto():
+    from ..loader import Repo
+    from .. import autovariants as av
+    # `start <= end` vs `start < end` differ only for start == end, which the property leaves unconstrained (equivalent)
+    return av.compare_variants(Repo(), [(TH, "time_in_range")], skip=("time_in_range:9:",))
+
